@@ -608,3 +608,100 @@ pub fn char_corpus() -> Vec<Rep> {
     }
     out
 }
+
+
+/// The `for` family: `for x in [e1, …, en] { body }` over list literals. `Model/Spec` has no lists; the
+/// language-defined meaning of the loop over a list LITERAL is used instead: the elements are evaluated
+/// once, in order, before the first iteration; the body then runs once per element in a scope of its own
+/// in which `x` is bound to that element. The Spec (and the harness interpreter) run that unrolled program,
+/// the compiler sees the `for` loop.
+enum FS { Plain(S), For(&'static str, Vec<E>, Vec<FS>) }
+
+fn fs_src(fs: &[FS], o: &mut String) {
+    for f in fs {
+        match f {
+            FS::Plain(st) => {
+                let mut t = String::new();
+                src_blk(&Blk { stmts: vec![st.clone()], last: None }, &mut t);
+                let t = t.trim();
+                o.push_str(t[1..t.len() - 1].trim());
+                o.push(' ');
+            }
+            FS::For(x, elems, body) => {
+                o.push_str(&format!("for {x} in ["));
+                for (i, e) in elems.iter().enumerate() { if i > 0 { o.push_str(", "); } src_expr(e, o); }
+                o.push_str("] { ");
+                fs_src(body, o);
+                o.push_str("} ");
+            }
+        }
+    }
+}
+
+fn fs_spec(fs: &[FS], n: &mut usize) -> Vec<S> {
+    let t = STy::I32;
+    let mut out = vec![];
+    for f in fs {
+        match f {
+            FS::Plain(st) => out.push(st.clone()),
+            FS::For(x, elems, body) => {
+                let id = *n;
+                *n += 1;
+                for (i, e) in elems.iter().enumerate() { out.push(S::Let(format!("l{id}_{i}"), t, false, e.clone())); }
+                for i in 0..elems.len() {
+                    let mut st = vec![S::Let(x.to_string(), t, false, var(&format!("l{id}_{i}"), t))];
+                    st.extend(fs_spec(body, n));
+                    out.push(S::Do(E::Block(blk(st, None))));
+                }
+            }
+        }
+    }
+    out
+}
+
+pub fn for_corpus() -> Vec<Rep> {
+    let t = STy::I32;
+    let v = |x: &str| var(x, t);
+    let n = |k: u64| lit(t, k);
+    use Op::*;
+    let acc = |x: E| FS::Plain(S::Do(set("s", bin(Add, bin(Mul, v("s"), n(3)), x))));
+    let s0 = || FS::Plain(S::Let("s".into(), t, false, n(0)));
+    let twice = func("twice", &[("x", t)], t, val(bin(Add, v("x"), v("x"))));
+    let shapes: Vec<(&str, Vec<FS>, E)> = vec![
+        ("sum", vec![s0(), FS::For("x", vec![v("a"), v("b"), v("c")], vec![FS::Plain(S::Do(set("s", bin(Add, v("s"), v("x")))))])], v("s")),
+        ("order", vec![s0(), FS::For("x", vec![v("a"), v("b"), v("c")], vec![acc(v("x"))])], v("s")),
+        ("one-element", vec![s0(), FS::For("x", vec![v("b")], vec![acc(v("x"))])], v("s")),
+        ("element-expressions", vec![s0(), FS::For("x", vec![bin(Add, v("a"), v("b")), bin(Mul, v("b"), v("c")), bin(Sub, v("c"), v("a")), n(7)], vec![acc(v("x"))])], v("s")),
+        ("list-evaluated-before-the-loop", vec![s0(), FS::For("x", vec![v("a"), v("a"), v("b")], vec![
+            FS::Plain(S::Do(set("a", bin(Add, v("a"), n(1))))), FS::Plain(S::Do(set("b", bin(Mul, v("b"), n(2))))), acc(v("x"))])], bin(Add, v("s"), bin(Sub, v("a"), v("b")))),
+        ("assign-to-loop-variable", vec![s0(), FS::For("x", vec![v("a"), v("b"), v("c")], vec![FS::Plain(S::Do(set("x", bin(Add, v("x"), n(1))))), acc(v("x"))])], v("s")),
+        ("early-return", vec![s0(), FS::For("x", vec![v("a"), v("b"), v("c")], vec![
+            FS::Plain(S::Do(E::If(Box::new(bin(Eq, v("x"), v("b"))), blk(vec![S::Do(E::Ret(Box::new(bin(Add, bin(Mul, v("s"), n(5)), v("x")))))], None), None))),
+            acc(v("x"))])], bin(Sub, v("s"), n(1))),
+        ("nested", vec![s0(), FS::For("x", vec![v("a"), v("b")], vec![FS::For("y", vec![v("b"), v("c"), v("x")], vec![acc(bin(Sub, v("x"), v("y")))])])], v("s")),
+        ("loop-variable-shadows", vec![s0(), FS::Plain(S::Let("x".into(), t, false, n(7))), FS::For("x", vec![v("a"), v("b")], vec![acc(v("x"))])], bin(Add, bin(Mul, v("s"), n(3)), v("x"))),
+        ("same-variable-in-nested-loops", vec![s0(), FS::For("x", vec![v("a"), v("b")], vec![FS::For("x", vec![v("c"), v("x")], vec![acc(v("x"))]), acc(v("x"))])], v("s")),
+        ("call-in-body", vec![s0(), FS::For("x", vec![v("a"), v("b"), v("c")], vec![acc(E::Call("twice".into(), vec![v("x")], t))])], v("s")),
+        ("two-loops", vec![s0(), FS::For("x", vec![v("a"), v("b")], vec![acc(v("x"))]), FS::For("y", vec![v("c"), v("s")], vec![acc(v("y"))])], v("s")),
+        ("let-in-body", vec![s0(), FS::For("x", vec![v("a"), v("b"), v("c")], vec![FS::Plain(S::Let("d".into(), t, false, bin(Sub, v("x"), v("s")))), acc(v("d"))])], v("s")),
+    ];
+    let bd: [u64; 6] = [0, 1, 2, 0xFFFF_FFFF, 0x7FFF_FFFF, 0x8000_0000];
+    let mut args = vec![];
+    for a in bd { for b in bd { for c in bd { args.push(vec![a, b, c]); } } }
+    let mut out = vec![];
+    for (name, fs, last) in shapes {
+        let mut k = 0;
+        let main = func("main", &[("a", t), ("b", t), ("c", t)], t, blk(fs_spec(&fs, &mut k), Some(last.clone())));
+        let prog = Prog { enums: vec![], fns: vec![twice.clone(), main] };
+        // the source: the helper as printed, `main` with the loops
+        let helper_only = source(&Prog { enums: vec![], fns: vec![twice.clone(), func("main", &[("a", t), ("b", t), ("c", t)], t, val(n(0)))] });
+        let cut = helper_only.find("fn main").expect("main printed");
+        let mut src = helper_only[..cut].to_string();
+        src.push_str("fn main(a: i32, b: i32, c: i32) -> i32 { ");
+        fs_src(&fs, &mut src);
+        src_expr(&last, &mut src);
+        src.push_str(" }\n");
+        out.push(Rep { name: format!("for/{name}"), key: format!("for-loop {name}"), prog, ty: t, ret: t, args: args.clone(), src: Some(src) });
+    }
+    out
+}
